@@ -124,6 +124,8 @@ func (fc *FnCtx) call(instr ssa.Instruction, c *ssa.CallCommon, st *State, g *sm
 	default:
 		res = fc.uncontracted(name, calleeFn, args, resT, st, g, where)
 	}
+	fc.callRes[fmt.Sprintf("%s#%d", name, ord)] = res
+	fc.callGuard[fmt.Sprintf("%s#%d", name, ord)] = g
 	fc.callAsserts(name, ord, false, args, &res, c, instr, st, g, where)
 	return res
 }
@@ -149,6 +151,18 @@ func (fc *FnCtx) funcValueName(v ssa.Value) string {
 	case *ssa.Phi:
 		if x.Comment != "" {
 			return fc.Name + "." + x.Comment
+		}
+	case *ssa.Extract:
+		if c, ok := x.Tuple.(*ssa.Call); ok {
+			var cn string
+			if c.Call.IsInvoke() {
+				cn = fc.P.TypeStr(c.Call.Value.Type(), nil) + "." + c.Call.Method.Name()
+			} else if fn := c.Call.StaticCallee(); fn != nil {
+				cn = fc.nameOfFn(fn)
+			}
+			if cn != "" {
+				return fmt.Sprintf("ret:%s.%d", cn, x.Index)
+			}
 		}
 	}
 	return "funcvalue:" + fc.Name + ":" + v.Name()
@@ -336,6 +350,8 @@ func (fc *FnCtx) builtin(b *ssa.Builtin, c *ssa.CallCommon, resT types.Type, st 
 		switch kindOf(c.Args[0].Type()) {
 		case KStr:
 			return Val{T: smt.SLen(fc.term(v)), GoT: resT}
+		case KStrList, KStrArr:
+			return Val{T: smt.LLen(fc.term(v)), GoT: resT}
 		case KSlice:
 			if b.Name() == "cap" {
 				return Val{T: smt.SlCap(fc.term(v)), GoT: resT}
@@ -408,6 +424,14 @@ func (fc *FnCtx) builtin(b *ssa.Builtin, c *ssa.CallCommon, resT types.Type, st 
 // capacity is not modelled; aliasing through append is outside the subset).
 func (fc *FnCtx) appendBuiltin(c *ssa.CallCommon, resT types.Type, st *State, g *smt.Term, where string) Val {
 	s := fc.term(fc.val(c.Args[0]))
+	if kindOf(resT) == KStrList {
+		other := fc.term(fc.val(c.Args[1]))
+		if other.Sort != smt.SList {
+			fc.abstr("append to []string with unsupported argument")
+			return fc.freshVal("appended", resT)
+		}
+		return Val{T: fc.S.Define("appS", smt.LApp(s, other)), GoT: resT}
+	}
 	var add *smt.Term
 	switch kindOf(c.Args[1].Type()) {
 	case KStr:
